@@ -338,9 +338,9 @@ func main() {
 	// corpus: the unit-test history, the non-vacuity example of Prop/C01.v, boundary cases
 	runOne("corpus", Hist{3, []Op{H(1, 2, 1), H(2, 3, 1), H(3, 4, 1), H(4, 6, 1), H(5, 5, 1), H(6, 8, 1), H(7, 9, 1), H(8, 7, 1)}})
 	runOne("corpus", Hist{10, []Op{H(3, 13, 1), H(3, 13, 1), H(1, 11, 1), H(4, 13, 2), H(2, 12, 1), {K: 2}, {K: 1, ID: 15}, H(5, 16, 1)}})
-	runOne("corpus", Hist{7, []Op{H(1, 0, 1)}})                                       // zero position resets
+	runOne("corpus", Hist{7, []Op{H(1, 0, 1)}})                                          // zero position resets
 	runOne("corpus", Hist{5, []Op{H(1, 9, 1), {K: 1, ID: 12}, H(2, 13, 1), H(3, 8, 1)}}) // SetState with open gap, then fill attempt
-	runOne("corpus", Hist{5, []Op{H(1, 9, 1), {K: 2}, H(2, 6, 1), H(3, 8, 2)}})         // cleared gaps, pending kept
+	runOne("corpus", Hist{5, []Op{H(1, 9, 1), {K: 2}, H(2, 6, 1), H(3, 8, 2)}})          // cleared gaps, pending kept
 	runOne("corpus", Hist{5, []Op{H(1, 8, 1), H(2, 7, 3), H(3, 6, 1), H(4, 7, 1)}})      // overlapping fills
 
 	if c.Thorough() {
